@@ -172,6 +172,20 @@ def run(chk: Check, tier: str, seed: int) -> None:
     parsecheck.report(chk, rejects, "parser")
     chk.extra["parser_model"] = counters
     chk.traces += counters["recorded"]
+    # texts the specification's strings cannot usefully carry: integers of more digits than the host converts (refused, with a JSONPath error)
+    from jsonpath.exceptions import JSONPathError
+
+    huge = "9" * 5000
+    for text in (f"$[{huge}]", f"$[-{huge}]", f"$[:{huge}]", f"$[{huge}::]", f"$[?@[{huge}] == 1]", f"$[?@.a == {huge}]", f"$..[1, {huge}]"):
+        for lim in (None, [-5, 5]):
+            try:
+                make_env(lim).compile(text)
+                chk.violation("accepted-but-must-be-refused|huge-integer", {"query": text[:40] + "...", "narrow_limits": lim}, "huge integer accepted")
+            except JSONPathError:
+                pass
+            except BaseException as e:  # noqa: BLE001
+                chk.violation(f"refused-with-{exc_family(e)}|huge-integer", {"query": text[:40] + "...", "narrow_limits": lim}, f"{type(e).__name__}")
+            chk.traces += 1
     acc = sum(1 for r in recs if r["accept"])
     chk.extra["programs_accepted_by_spec"] = acc
     chk.extra["programs_refused_by_spec"] = len(recs) - acc
